@@ -92,6 +92,14 @@ func (r recStorage) rec(op string, args ...int) error {
 	if op != "SetState" && !w.Store.Found {
 		return errNoUser
 	}
+	if w.failArm > 0 {
+		w.failArm--
+		if w.failArm == 0 {
+			// transient write failure: nothing is stored
+			w.Trace = append(w.Trace, Call{Op: "api:FAILED-" + op, Args: args})
+			return errors.New("verif: injected storage write failure")
+		}
+	}
 	c := Call{Op: op, Args: args}
 	w.Store.Apply(c)
 	w.Trace = append(w.Trace, c)
@@ -168,6 +176,12 @@ type WorldCfg struct {
 	// tracks nor has in its storage when it starts; their access hash is known. The first pushed
 	// update of such a channel makes internalState.handleChannel create the channel state.
 	Untracked []int `json:"untracked,omitempty"`
+	// Containers > 1: pushes of one updates envelope carrying up to Containers distinct log
+	// entries in every order are events too ("pushc").
+	Containers int `json:"containers,omitempty"`
+	// Faults: the event "fail j" makes the j-th following StateStorage write (j = 1..3) fail once
+	// with an error (nothing stored); at most one such failure per history.
+	Faults bool `json:"faults,omitempty"`
 }
 
 // IsUntracked reports whether the channel is not known to the client at the start.
@@ -192,15 +206,20 @@ func (c WorldCfg) IsUntracked(ch int64) bool {
 //	ptsChanged    updatePtsChanged is pushed (seq 0)
 //	chanTooLong c updateChannelTooLong (with the server's pts) for channel #c is pushed
 //	chanTooLongNoPts c   the same without pts
+//	pushc set     one envelope carrying the log entries set (in that order) reaches the main loop
+//	fail j        the j-th following StateStorage write fails (once per history)
 type Event struct {
-	Op string `json:"op"`
-	I  int    `json:"i,omitempty"`
+	Op  string `json:"op"`
+	I   int    `json:"i,omitempty"`
+	Set []int  `json:"set,omitempty"`
 }
 
 func (e Event) String() string {
 	switch e.Op {
-	case "push", "cdiff", "chan", "chanTooLong", "chanTooLongNoPts":
+	case "push", "cdiff", "chan", "chanTooLong", "chanTooLongNoPts", "fail":
 		return fmt.Sprintf("%s(%d)", e.Op, e.I)
+	case "pushc":
+		return fmt.Sprintf("pushc%v", e.Set)
 	}
 	return e.Op
 }
@@ -224,6 +243,13 @@ type World struct {
 	Contact map[string]int
 	parked  chan int64
 	closed  atomic.Bool
+	// write fault: failArm counts down to the failing write; FailUsed once armed
+	failArm  int
+	FailUsed bool
+	// zero-count entries: pushed[i] = entry i was pushed; InOrder[i] = some push of it happened
+	// when every earlier entry of its sequence had been pushed or served and no later one had
+	pushed  []bool
+	InOrder []bool
 	Seqs   []string
 	Count  []int // deliveries per entry in this run
 	Prior  []int // deliveries per entry in earlier runs (restart)
@@ -285,15 +311,29 @@ func InitialStore(cfg WorldCfg, log []Entry) Store {
 func FirstContact(cfg WorldCfg, log []Entry, hist []Event) map[string]int {
 	fc := map[string]int{}
 	for _, ev := range hist {
-		if ev.Op != "push" || ev.I >= len(log) {
+		set := ev.Set
+		if ev.Op == "push" {
+			set = []int{ev.I}
+		} else if ev.Op != "pushc" {
 			continue
 		}
-		e := log[ev.I]
-		if e.Chan == 0 || !cfg.IsUntracked(e.Chan) {
-			continue
+		first := map[string]int{}
+		for _, i := range set {
+			if i >= len(log) {
+				continue
+			}
+			e := log[i]
+			if e.Chan == 0 || !cfg.IsUntracked(e.Chan) {
+				continue
+			}
+			if p, ok := first[e.Seq]; !ok || e.Start() < p {
+				first[e.Seq] = e.Start()
+			}
 		}
-		if _, ok := fc[e.Seq]; !ok {
-			fc[e.Seq] = e.Start()
+		for s, p := range first {
+			if _, ok := fc[s]; !ok {
+				fc[s] = p
+			}
 		}
 	}
 	return fc
@@ -308,7 +348,8 @@ func NewWorld(cfg WorldCfg, store Store, visible int) (*World, error) {
 	}
 	w := &World{Cfg: cfg, Store: store.Clone(), Count: make([]int, len(log)), Prior: make([]int, len(log)),
 		TooLong: map[string]bool{}, delivered: map[string]map[int]bool{}, base: map[string]int{},
-		All: LogChannels(log), Contact: map[string]int{}, parked: make(chan int64, 16)}
+		All: LogChannels(log), Contact: map[string]int{}, parked: make(chan int64, 16),
+		pushed: make([]bool, len(log)), InOrder: make([]bool, len(log))}
 	w.Srv = NewServer(cfg.Server, log)
 	w.Srv.Visible = visible
 	w.Srv.OnChanDiff = func(ch int64) {
@@ -387,6 +428,12 @@ func (w *World) handle(ctx context.Context, u tg.UpdatesClass) error {
 	w.Trace = append(w.Trace, Call{Op: "Handle", Args: ids})
 	for _, i := range ids {
 		e := w.Srv.Log[i]
+		if e.Count == 0 {
+			// does not advance its sequence: outside (i) and (ii) of the statement
+			w.Count[i]++
+			w.evDeliv = append(w.evDeliv, i)
+			continue
+		}
 		// C01 (i): every earlier position delivered or covered by a fetched difference
 		for p := 1; p <= e.Start(); p++ {
 			if p <= w.base[e.Seq] || p <= w.Srv.Covered[e.Seq] || w.delivered[e.Seq][p] {
@@ -587,6 +634,15 @@ func (w *World) Enabled(e Event) bool {
 	switch e.Op {
 	case "push":
 		return e.I < w.Srv.Visible && room
+	case "pushc":
+		for _, i := range e.Set {
+			if i >= w.Srv.Visible {
+				return false
+			}
+		}
+		return room && !w.Srv.Cfg.Seq
+	case "fail":
+		return w.Cfg.Faults && !w.FailUsed
 	case "grow":
 		return w.Srv.Visible < len(w.Srv.Log)
 	case "diff", "tooLong", "ptsChanged":
@@ -623,12 +679,13 @@ func (w *World) Apply(e Event) {
 		}
 		switch e.Op {
 		case "push":
-			if en := w.Srv.Log[e.I]; en.Chan != 0 && w.Cfg.IsUntracked(en.Chan) {
-				if _, ok := w.Contact[en.Seq]; !ok {
-					w.Contact[en.Seq] = en.Start()
-				}
-			}
+			w.notePush([]int{e.I})
 			push(w.Srv.Push(e.I, w.Cfg.Envelope))
+		case "pushc":
+			w.notePush(e.Set)
+			push(w.Srv.PushContainer(e.Set, w.Cfg.Envelope))
+		case "fail":
+			w.failArm, w.FailUsed = e.I, true
 		case "grow":
 			w.Srv.Visible = len(w.Srv.Log)
 		case "diff":
@@ -661,6 +718,50 @@ func (w *World) Apply(e Event) {
 			panic("unknown event " + e.Op)
 		}
 	})
+}
+
+// notePush records what the oracles need to know about a push (one entry or a container, in
+// arrival order): the first contact of initially untracked channels (the earliest range start of
+// that channel in the first envelope that carries it) and whether a zero-count entry arrives in
+// order (see Owed).
+func (w *World) notePush(set []int) {
+	log := w.Srv.Log
+	first := map[string]int{}
+	for _, i := range set {
+		e := log[i]
+		if e.Chan != 0 && w.Cfg.IsUntracked(e.Chan) {
+			if p, ok := first[e.Seq]; !ok || e.Start() < p {
+				first[e.Seq] = e.Start()
+			}
+		}
+	}
+	for s, p := range first {
+		if _, ok := w.Contact[s]; !ok {
+			w.Contact[s] = p
+		}
+	}
+	known := func(j int) bool {
+		sv := w.Srv.Served[j]
+		return w.pushed[j] || sv.NewMessages+sv.OtherUpdates > 0
+	}
+	for _, i := range set {
+		e := log[i]
+		if e.Count == 0 {
+			ok := true
+			for j, o := range log {
+				if o.Seq != e.Seq || j == i {
+					continue
+				}
+				if j < i && !known(j) || j > i && known(j) {
+					ok = false
+				}
+			}
+			if ok {
+				w.InOrder[i] = true
+			}
+		}
+		w.pushed[i] = true
+	}
 }
 
 // Recover is the end of a scenario: the whole log exists, queues are drained, the given triggers
@@ -748,7 +849,24 @@ func (w *World) Key() string {
 			sb.WriteString(" TL" + s)
 		}
 	}
-	fmt.Fprintf(&sb, " v%d e%d", w.Srv.Visible, len(w.Errs))
+	sb.WriteString(" io")
+	for i, e := range w.Srv.Log {
+		if e.Count == 0 {
+			fmt.Fprintf(&sb, "%v%v,", w.pushed[i], w.InOrder[i])
+		}
+	}
+	// which entries were pushed/served matters for the in-order rule of zero-count entries
+	hasZero := false
+	for _, e := range w.Srv.Log {
+		hasZero = hasZero || e.Count == 0
+	}
+	if hasZero {
+		for i := range w.Srv.Log {
+			sv := w.Srv.Served[i]
+			fmt.Fprintf(&sb, "%v%v%v,", w.pushed[i], sv.NewMessages > 0, sv.OtherUpdates > 0)
+		}
+	}
+	fmt.Fprintf(&sb, " f%d%v v%d e%d", w.failArm, w.FailUsed, w.Srv.Visible, len(w.Errs))
 	return sb.String()
 }
 
@@ -768,6 +886,15 @@ func (w *World) Lost() []Entry {
 // sequences and for channels tracked from the start; for an initially untracked channel only once
 // the client has seen a pushed update of it, and only entries after that first contact.
 func (w *World) Owed(e Entry) bool {
+	if e.Count == 0 {
+		// A zero-count update has no position of its own: a difference requested from its pts does
+		// not return it, and the protocol tells clients to ignore it once the local pts is past
+		// it. It is owed when a difference answer carried it, or when a push of it arrived in
+		// order (every earlier entry of the sequence already pushed or served, no later one yet).
+		if w.Srv.Served[e.Idx].OtherUpdates == 0 && !w.InOrder[e.Idx] {
+			return false
+		}
+	}
 	if e.Chan == 0 || !w.Cfg.IsUntracked(e.Chan) {
 		return true
 	}
